@@ -99,7 +99,14 @@ func c08GenOpt(r *RNG, id string, allowComma bool) *Case {
 	c.Set("tnames", strings.Join(tn, ",")).Set("tseqs", strings.Join(ts, ","))
 	// option sets
 	o := map[string]int{"sizetotal": 0, "sizeup": 0, "sizedown": 0, "sizeside": 0, "sizesame": 0, "distall": 0, "distup": 0, "distdown": 0, "distside": 0, "distpush": 0}
-	switch r.Intn(8) {
+	switch r.Intn(10) {
+	case 8: // --size-total together with --size-*: the total overrides them (a warning, not an error)
+		o["sizetotal"] = r.Range(1, 12)
+		o["sizeup"], o["sizeside"] = r.Range(0, 3), r.Range(1, 3)
+	case 9: // --dist-all together with --dist-*: dist-all overrides them
+		o["distall"] = r.Range(1, 4)
+		o["distup"], o["distdown"] = r.Range(1, 4), r.Range(0, 2)
+		o["sizetotal"] = r.PickInt([]int{0, 0, 6})
 	case 0:
 		o["sizetotal"] = r.Range(1, 12)
 	case 1:
